@@ -1,18 +1,552 @@
-(* UriProof.v — proofs of property C20 about the GENERATED table gen/Uri_gen.v. *)
+(* UriProof.v — proofs of property C20 about the GENERATED table gen/Uri_gen.v.
+
+   Part 1  evalx inherits the generic engine facts: cursor invariant (EngineFacts), fuel monotonicity (Mono).
+   Part 2  PEG-in-CFG reading: whatever evalx accepts on a table lies in the regular language re_of
+           computes from that table; locally never-failing nodes never fail; every exception is a
+           parse_error raised by must / if_must (generic in the table, for the fragment re_of supports).
+   Part 3  the language of maximum_rule< uint8_t, 255 > (C15 model) is RFC 3986 dec-octet.
+   Part 4  the generated URI table: soundness against Rfc3986.v by the verified inclusion checker,
+           exactness for IPv4address, the recorded counterexample to completeness. *)
 From Coq Require Import List NArith ZArith Bool Lia.
-From PegtlV Require Import Base Decode Grammar Engine Integer Regex Rfc3986 UriModel.
+From PegtlV Require Import Base Decode Grammar Engine EngineFacts AtomFacts Mono Spec ExactSound Integer IntegerSpec.
+From PegtlV Require IntegerFacts.
+From PegtlV Require Import Regex RegexIncl Rfc3986 UriModel.
 From PegtlV.gen Require Import Uri_gen.
 Import ListNotations.
 Local Open Scope N_scope.
 
-(* ---------- the recorded finding, computed on the generated table ---------- *)
-(* "//1.2.3.4a" *)
-Definition host_witness : list byte := [47; 47; 49; 46; 50; 46; 51; 46; 52; 97].
+Ltac dres x := destruct x as [[| |?e] ?c ?evs| |].
 
-Lemma complete_refuted :
-  exists s, matches (rfc TURI_reference) s /\ uri_rejects TURI_reference s.
+(* ================================================================== Part 1 *)
+
+(* ---------- maximum_rule never leaves [current, end) and restores nothing it did not touch ---------- *)
+Definition mgood (c : cursor) (m : mres N) : Prop :=
+  match m with
+  | MOk c' _ => adv PT c c'
+  | MFail c' _ => c' = c
+  | _ => False
+  end.
+
+Lemma bump_ok_good n c (st : N) : (n <= in_size c)%nat -> mgood c (bump_ok n c st).
 Proof.
-  exists host_witness. split.
-  - apply re_match_correct. vm_compute. reflexivity.
-  - exists (uri_fuel host_witness). vm_compute. do 2 eexists. left. reflexivity.
+  intros H. unfold bump_ok. destruct (bump_in_line_some n c H) as [c' Hc]. rewrite Hc. simpl.
+  eapply bump_in_line_adv; eauto.
 Qed.
+
+Lemma peek_at_lt c i : (i < in_size c)%nat -> exists b, peek_at c i = Some b.
+Proof.
+  unfold in_size, peek_at. intros H. destruct (nth_error (rest c) i) eqn:E; [eexists; reflexivity|].
+  apply nth_error_None in E. lia.
+Qed.
+
+Lemma nothrow_loop_good : forall fuel w Max c st ch b,
+  (b < in_size c)%nat -> (in_size c <= length fuel + b + 1)%nat -> mgood c (nothrow_loop fuel w Max c st ch b).
+Proof.
+  induction fuel as [|x fuel IH]; intros w Max c st ch b Hb Hf; rewrite IntegerFacts.nothrow_loop_eq;
+    (destruct (accumulate_digit w Max st (digit_value w ch)) as [st'|]; [|reflexivity]); cbv zeta.
+  - simpl in Hf. destruct (S b <? in_size c)%nat eqn:E; [apply Nat.ltb_lt in E; lia|].
+    apply bump_ok_good. lia.
+  - destruct (S b <? in_size c)%nat eqn:E.
+    + apply Nat.ltb_lt in E. destruct (peek_at_lt c (S b) E) as [ch' Hp]. rewrite Hp.
+      destruct (is_digit ch'); [|apply bump_ok_good; lia].
+      apply IH; [exact E | simpl in Hf; lia].
+    + apply bump_ok_good. lia.
+Qed.
+
+Lemma match_nothrow_good w Max c st : mgood c (match_nothrow w Max c st).
+Proof.
+  unfold match_nothrow. destruct (in_empty c) eqn:Ee; [reflexivity|].
+  assert (Hs : (1 <= in_size c)%nat) by (apply in_empty_size; exact Ee).
+  destruct (peek_at_lt c 0) as [ch Hp]; [lia|]. rewrite Hp.
+  destruct (ch =? 48).
+  - unfold zero_case. destruct (in_size c <? 2)%nat eqn:E2; [apply bump_ok_good; lia|].
+    apply Nat.ltb_ge in E2. destruct (peek_at_lt c 1) as [c1 Hp1]; [lia|]. rewrite Hp1.
+    destruct (negb (is_digit c1)); [apply bump_ok_good; lia | reflexivity].
+  - destruct (is_digit ch); [|reflexivity].
+    apply nothrow_loop_good; [lia | unfold in_size; lia].
+Qed.
+
+Lemma mx_result_good w mx c m : goodT m c (mx_result (maximum_rule w mx c tt)).
+Proof.
+  unfold maximum_rule, goodT. pose proof (match_nothrow_good w mx c 0) as H.
+  destruct (match_nothrow w mx c 0) as [c' st|c' st|k p c' st|]; simpl in H; cbn [keep_state mx_result].
+  - exact H.
+  - rewrite H. apply (good_fail_same PT PT_refl).
+  - contradiction.
+  - contradiction.
+Qed.
+
+(* ---------- the cursor invariant and fuel monotonicity hold for evalx ---------- *)
+Section Generic.
+Variable G : grammar.
+Variable C : cfg.
+Variable MX : rid -> option (nat * N).
+Hypothesis HG : table_wf G.
+
+Theorem evalx_good f : forall d r c, goodT (dM d) c (evalx G C MX f d r c).
+Proof.
+  unfold goodT.
+  assert (Hscan : forall n c c', bump_scan (eol_ch (ceol C)) n c = Some c' -> adv PT c c') by (intros; eapply bump_scan_adv; eauto).
+  assert (Hatom : forall h c x m, head_wf h -> eval_atom (ceol C) h c = Some x -> good PT m c x) by (intros; eapply eval_atom_good; eauto).
+  induction f as [|f IH]; intros d r c; simpl; [exact I|].
+  destruct (nth_error G r) as [nd|] eqn:En; [|apply good_fail_same; exact PT_refl].
+  apply good_traced.
+  set (body := match MX r with
+               | Some (w, mx) => fun (_ : dyn) (c' : cursor) => mx_result (maximum_rule w mx c' tt)
+               | None => eval_head C (evalx G C MX f) f r (nhead nd) (nsubs nd) end).
+  assert (Hbody : forall d2 c2, good PT (dM d2) c2 (body d2 c2)).
+  { intros d2 c2. unfold body. destruct (MX r) as [[w mx]|].
+    - apply mx_result_good.
+    - apply (eval_head_good PT PT_refl PT_trans C head_wf Hscan Hatom); [exact IH | eapply HG; eauto]. }
+  assert (Hplain : forall ak d' c', good PT (dM d') c' (if nenabled nd then match_hpp C ak body d' r c' else body d' c')).
+  { intros ak d' c'. destruct (nenabled nd); [|apply Hbody].
+    apply (match_hpp_good PT PT_refl). exact Hbody. }
+  destruct (acts C (dAct d) r) as [| | |mk]; try apply Hplain.
+  apply (action_match_good PT PT_refl); [exact IH | apply Hplain].
+Qed.
+
+Theorem evalx_mono f1 : forall f2, (f1 <= f2)%nat -> forall d r c, le_res (evalx G C MX f1 d r c) (evalx G C MX f2 d r c).
+Proof.
+  induction f1 as [|f1 IH]; intros f2 Hf d r c; [apply le_oof|].
+  destruct f2 as [|f2]; [lia|]. simpl.
+  destruct (nth_error G r) as [nd|]; [|apply le_refl].
+  assert (Hle : forall d r c, le_res (evalx G C MX f1 d r c) (evalx G C MX f2 d r c)) by (apply IH; lia).
+  apply traced_mono.
+  set (b1 := match MX r with
+             | Some (w, mx) => fun (_ : dyn) (c' : cursor) => mx_result (maximum_rule w mx c' tt)
+             | None => eval_head C (evalx G C MX f1) f1 r (nhead nd) (nsubs nd) end).
+  set (b2 := match MX r with
+             | Some (w, mx) => fun (_ : dyn) (c' : cursor) => mx_result (maximum_rule w mx c' tt)
+             | None => eval_head C (evalx G C MX f2) f2 r (nhead nd) (nsubs nd) end).
+  assert (Hb : forall d2 c2, le_res (b1 d2 c2) (b2 d2 c2)).
+  { intros d2 c2. unfold b1, b2. destruct (MX r) as [[w mx]|]; [apply le_refl|].
+    apply eval_head_mono; [exact Hle | lia]. }
+  assert (Hplain : forall ak d' c', le_res
+            (if nenabled nd then match_hpp C ak b1 d' r c' else b1 d' c')
+            (if nenabled nd then match_hpp C ak b2 d' r c' else b2 d' c')).
+  { intros ak d' c'. destruct (nenabled nd); [apply match_hpp_mono; exact Hb | apply Hb]. }
+  destruct (acts C (dAct d) r) as [| | |mk]; try apply Hplain.
+  apply action_match_mono; [exact Hle | apply Hplain].
+Qed.
+
+Corollary evalx_mono_res f1 f2 d r c o c' evs :
+  evalx G C MX f1 d r c = Res o c' evs -> (f1 <= f2)%nat -> evalx G C MX f2 d r c = Res o c' evs.
+Proof.
+  intros H L. destruct (evalx_mono f1 f2 L d r c) as [E|E]; [congruence | rewrite <- E; exact H].
+Qed.
+
+Corollary evalx_functional f1 f2 d r c o1 c1 e1 o2 c2 e2 :
+  evalx G C MX f1 d r c = Res o1 c1 e1 -> evalx G C MX f2 d r c = Res o2 c2 e2 -> o1 = o2 /\ c1 = c2 /\ e1 = e2.
+Proof.
+  intros H1 H2. destruct (Nat.le_ge_cases f1 f2) as [L|L].
+  - pose proof (evalx_mono_res _ _ _ _ _ _ _ _ H1 L) as E. rewrite H2 in E. inversion E. auto.
+  - pose proof (evalx_mono_res _ _ _ _ _ _ _ _ H2 L) as E. rewrite H1 in E. inversion E. auto.
+Qed.
+End Generic.
+
+(* ================================================================== Part 3 *)
+(* the numerals maximum_rule< uint8_t, 255 > accepts are exactly the RFC's dec-octet strings *)
+
+Lemma digits_value_ge : forall ds acc, Forall isdigit ds -> (0 <= acc)%Z -> (acc <= digits_value acc ds)%Z.
+Proof.
+  induction ds as [|x ds IH]; intros acc Hd Ha; cbn [digits_value]; [lia|].
+  inversion Hd as [|? ? Hx Hd']; subst. unfold isdigit in Hx.
+  specialize (IH (10 * acc + (Z.of_N x - 48))%Z Hd'). lia.
+Qed.
+
+Definition dig09 : list N := map N.of_nat (seq 48 10).
+Definition dig19 : list N := map N.of_nat (seq 49 9).
+Lemma dig09_in b : isdigit b -> In b dig09.
+Proof. unfold isdigit, dig09. intros H. rewrite <- (N2Nat.id b). apply in_map, in_seq. lia. Qed.
+Lemma dig19_in b : 49 <= b <= 57 -> In b dig19.
+Proof. unfold dig19. intros H. rewrite <- (N2Nat.id b). apply in_map, in_seq. lia. Qed.
+
+Definition octet_ok (ds : list N) : bool := implb (unsigned_value ds <=? 255)%Z (re_match Rfc3986.dec_octet ds).
+Lemma octet_sweep :
+  forallb (fun d => octet_ok [d] &&
+    forallb (fun a => octet_ok [d; a] && forallb (fun b => octet_ok [d; a; b]) dig09) dig09) dig19 = true.
+Proof. vm_compute. reflexivity. Qed.
+
+Lemma numeral_dec_octet ds : unsigned_numeral ds -> (unsigned_value ds <= 255)%Z -> matches Rfc3986.dec_octet ds.
+Proof.
+  intros Hn Hv. apply re_match_correct. destruct Hn as [|d tl Hd Htl].
+  - vm_compute. reflexivity.
+  - pose proof octet_sweep as S. rewrite forallb_forall in S. specialize (S d (dig19_in d Hd)).
+    apply andb_true_iff in S. destruct S as [S1 S].
+    assert (Use : forall l, octet_ok l = true -> (unsigned_value l <= 255)%Z -> re_match Rfc3986.dec_octet l = true).
+    { intros l Ho Hl. unfold octet_ok in Ho. apply Z.leb_le in Hl. rewrite Hl in Ho. exact Ho. }
+    destruct tl as [|a tl]; [apply Use; assumption|].
+    inversion Htl as [|? ? Ha Htl']; subst.
+    rewrite forallb_forall in S. specialize (S a (dig09_in a Ha)). apply andb_true_iff in S. destruct S as [S2 S].
+    destruct tl as [|b tl]; [apply Use; assumption|].
+    inversion Htl' as [|? ? Hb Htl'']; subst.
+    rewrite forallb_forall in S. specialize (S b (dig09_in b Hb)).
+    destruct tl as [|x tl]; [apply Use; assumption|].
+    exfalso. inversion Htl'' as [|? ? Hx Htl3]; subst.
+    unfold unsigned_value in Hv. cbn [digits_value] in Hv.
+    unfold isdigit in *.
+    pose proof (digits_value_ge tl (10 * (10 * (10 * (10 * 0 + (Z.of_N d - 48)) + (Z.of_N a - 48)) + (Z.of_N b - 48)) + (Z.of_N x - 48))%Z Htl3) as K.
+    lia.
+Qed.
+
+(* ================================================================== Part 2 *)
+
+Definition Inv (R : re) (nf : bool) (c : cursor) (x : result) : Prop :=
+  match x with
+  | Res Ok c' _ => exists pre, rest c = pre ++ rest c' /\ matches R pre
+  | Res Fail _ _ => nf = false
+  | Res (Exc e) _ _ => exists w p, e = EParse w p
+  | Oof => True
+  | Err => True
+  end.
+
+Lemma Inv_mono R R' nf nf' c x : incl_re R R' -> (nf' = true -> nf = true) -> Inv R nf c x -> Inv R' nf' c x.
+Proof.
+  intros HR Hn. dres x; simpl; auto.
+  - intros [pre [H1 H2]]. exists pre. split; [exact H1 | apply HR; exact H2].
+  - intros ->. destruct nf'; [specialize (Hn eq_refl); discriminate | reflexivity].
+Qed.
+Lemma Inv_prepend R nf c evs x : Inv R nf c x -> Inv R nf c (prepend evs x).
+Proof. dres x; simpl; auto. Qed.
+Lemma Inv_guard R nf c m x : Inv R nf c x -> Inv R nf c (guard m c x).
+Proof. dres x; simpl; auto. Qed.
+Lemma Inv_traced R nf c k r a mm c0 x : Inv R nf c x -> Inv R nf c (traced k r a mm c0 x).
+Proof. dres x; simpl; auto. Qed.
+
+Lemma bytes_ok_adv c c' : adv PT c c' -> bytes_ok (rest c) -> bytes_ok (rest c').
+Proof. intros [pre [H _]] Hb. rewrite H in Hb. eapply bytes_ok_app_r; eauto. Qed.
+
+(* shifting an invariant established at a later cursor back to an earlier one *)
+Lemma Inv_shift R1 R2 nf c c1 pre y :
+  rest c = pre ++ rest c1 -> matches R1 pre -> Inv R2 nf c1 y -> Inv (Cat R1 R2) nf c y.
+Proof.
+  intros E M. dres y; simpl; auto.
+  intros [p2 [E2 M2]]. exists (pre ++ p2). split; [rewrite E, E2, app_assoc; reflexivity | apply MCat; assumption].
+Qed.
+
+Lemma Inv_bind R1 nf1 R2 nf2 c x k :
+  Inv R1 nf1 c x -> (forall c1 evs, x = Res Ok c1 evs -> Inv R2 nf2 c1 (k c1)) ->
+  Inv (Cat R1 R2) (nf1 && nf2) c (bind x k).
+Proof.
+  intros H1 Hk. dres x; simpl in *; auto.
+  - destruct H1 as [pre [E M]]. specialize (Hk c0 evs eq_refl). apply Inv_prepend.
+    eapply Inv_mono; [| |eapply Inv_shift; eauto]; [intros s Hs; exact Hs|].
+    intros Hn. apply andb_true_iff in Hn. tauto.
+  - subst nf1. reflexivity.
+Qed.
+
+Definition fr (l : list re) : re := fold_right Cat Eps l.
+Definition fa (l : list re) : re := fold_right Alt Empty l.
+Lemma cat_list_iff l : forall s, matches (cat_list l) s <-> matches (fr l) s.
+Proof.
+  induction l as [|r l IH]; intros s; [simpl; tauto|].
+  destruct l as [|r2 l'].
+  - simpl. rewrite cat_inv. split.
+    + intros H. exists s, []. rewrite app_nil_r. split; [reflexivity | split; [exact H | constructor]].
+    + intros [s1 [s2 [-> [H1 H2]]]]. apply eps_inv in H2. subst. rewrite app_nil_r. exact H1.
+  - change (cat_list (r :: r2 :: l')) with (Cat r (cat_list (r2 :: l'))).
+    change (fr (r :: r2 :: l')) with (Cat r (fr (r2 :: l'))).
+    rewrite !cat_inv. split; intros [s1 [s2 [E [H1 H2]]]]; exists s1, s2; (split; [exact E | split; [exact H1 | apply IH; exact H2]]).
+Qed.
+Lemma alt_list_iff l : forall s, matches (alt_list l) s <-> matches (fa l) s.
+Proof.
+  induction l as [|r l IH]; intros s; [simpl; tauto|].
+  destruct l as [|r2 l'].
+  - simpl. rewrite alt_inv. split; [auto | intros [H|H]; [exact H | exfalso; eapply empty_inv; eauto]].
+  - change (alt_list (r :: r2 :: l')) with (Alt r (alt_list (r2 :: l'))).
+    change (fa (r :: r2 :: l')) with (Alt r (fa (r2 :: l'))).
+    rewrite !alt_inv, IH. tauto.
+Qed.
+
+Lemma pow_opt_nil k R : matches (pow k (Alt R Eps)) [].
+Proof.
+  induction k as [|k IH]; simpl; [constructor|].
+  change (@nil N) with (@nil N ++ @nil N). apply MCat; [apply MAltR; constructor | exact IH].
+Qed.
+
+Lemma strip_app cs : forall s s', strip cs s = Some s' -> s = cs ++ s'.
+Proof.
+  induction cs as [|c cs IH]; intros s s' H; simpl in H; [inversion H; reflexivity|].
+  destruct s as [|b s]; [discriminate|]. destruct (c =? b) eqn:E; [|discriminate].
+  apply N.eqb_eq in E. subst. simpl. f_equal. apply IH. exact H.
+Qed.
+Lemma lits_match cs : matches (fr (map lit cs)) cs.
+Proof.
+  induction cs as [|c cs IH]; simpl; [constructor|].
+  change (c :: cs) with ([c] ++ cs). apply MCat; [|exact IH].
+  constructor. unfold cs_mem, in_range. simpl. rewrite N.leb_refl. reflexivity.
+Qed.
+
+Section InvHelpers.
+Variable C : cfg.
+Variable sub : rid -> option (re * bool).
+Variable ev : dyn -> rid -> cursor -> result.
+Hypothesis Hgood : forall d r c, goodT (dM d) c (ev d r c).
+Hypothesis Hev : forall d r c R nf, sub r = Some (R, nf) -> bytes_ok (rest c) -> Inv R nf c (ev d r c).
+
+Lemma ev_ok_bytes d r c c' evs : ev d r c = Res Ok c' evs -> bytes_ok (rest c) -> bytes_ok (rest c').
+Proof. intros E Hb. pose proof (Hgood d r c) as G. rewrite E in G. simpl in G. eapply bytes_ok_adv; eauto. Qed.
+Lemma ev_fail_req d r c c' evs : dM d = true -> ev d r c = Res Fail c' evs -> c' = c.
+Proof. intros Hd E. pose proof (Hgood d r c) as G. rewrite E, Hd in G. exact G. Qed.
+
+Lemma seq_all_inv d : forall rs l, subs_re sub rs = Some l ->
+  forall c, bytes_ok (rest c) -> Inv (fr (map fst l)) (forallb snd l) c (seq_all ev d rs c).
+Proof.
+  induction rs as [|r rs IH]; intros l Hs c Hb; simpl in Hs.
+  - inversion Hs; subst. simpl. exists []. split; [reflexivity | constructor].
+  - destruct (sub r) as [[R nf]|] eqn:Er; [|discriminate].
+    destruct (subs_re sub rs) as [l'|] eqn:El; [|discriminate]. inversion Hs; subst. clear Hs.
+    cbn [map fst snd forallb fr fold_right seq_all].
+    apply Inv_bind; [apply Hev; assumption|].
+    intros c1 evs E. apply IH; [reflexivity | eapply ev_ok_bytes; eauto].
+Qed.
+
+Lemma sor_any_inv d : forall rs l, subs_re sub rs = Some l ->
+  forall c, bytes_ok (rest c) -> Inv (fa (map fst l)) (existsb snd l) c (sor_any ev d rs c).
+Proof.
+  induction rs as [|r rs IH]; intros l Hs c Hb.
+  - simpl in Hs. inversion Hs; subst. simpl. reflexivity.
+  - cbn [subs_re] in Hs. destruct (sub r) as [[R nf]|] eqn:Er; [|discriminate].
+    destruct (subs_re sub rs) as [l'|] eqn:El; [|discriminate]. inversion Hs; subst. clear Hs.
+    cbn [map fst snd existsb fa fold_right].
+    destruct rs as [|r2 rs'].
+    + simpl in El. inversion El; subst. simpl.
+      eapply Inv_mono; [| |apply (Hev d r c R nf Er Hb)].
+      * intros s Hm. apply MAltL. exact Hm.
+      * rewrite orb_false_r. auto.
+    + change (sor_any ev d (r :: r2 :: rs') c) with
+        (match ev (req d) r c with Res Fail c' evs => prepend evs (sor_any ev d (r2 :: rs') c') | x => x end).
+      pose proof (Hev (req d) r c R nf Er Hb) as H1.
+      destruct (ev (req d) r c) as [[| |e] c0 evs| |] eqn:E; simpl in H1; simpl; auto.
+      * destruct H1 as [pre [E1 M1]]. exists pre. split; [exact E1 | apply MAltL; exact M1].
+      * assert (c0 = c) by (eapply (ev_fail_req (req d)); [reflexivity | exact E]). subst c0.
+        apply Inv_prepend. eapply Inv_mono; [| |apply (IH l' eq_refl c Hb)].
+        -- intros s Hm. apply MAltR. exact Hm.
+        -- subst nf. simpl. auto.
+Qed.
+
+Lemma single_step d r R nf c : sub r = Some (R, nf) -> bytes_ok (rest c) ->
+  match seq_all ev (req d) [r] c with
+  | Res Ok c' _ => (exists pre, rest c = pre ++ rest c' /\ matches R pre) /\ bytes_ok (rest c')
+  | Res Fail c' _ => c' = c
+  | Res (Exc e) _ _ => exists w p, e = EParse w p
+  | _ => True
+  end.
+Proof.
+  intros Er Hb. cbn [seq_all]. unfold bind.
+  pose proof (Hev (req d) r c R nf Er Hb) as H1.
+  destruct (ev (req d) r c) as [[| |e] c0 evs| |] eqn:E; simpl in H1; simpl; auto.
+  - split; [exact H1 | eapply ev_ok_bytes; eauto].
+  - eapply (ev_fail_req (req d)); [reflexivity | exact E].
+Qed.
+
+Lemma star_loop_inv d r R nf : sub r = Some (R, nf) ->
+  forall n c, bytes_ok (rest c) -> Inv (Star R) true c (star_loop ev n d [r] c).
+Proof.
+  intros Er. induction n as [|n IH]; intros c Hb; [exact I|].
+  cbn [star_loop]. pose proof (single_step d r R nf c Er Hb) as S.
+  destruct (seq_all ev (req d) [r] c) as [[| |e] c0 evs| |]; simpl; auto.
+  - destruct S as [[pre [E M]] Hb0]. apply Inv_prepend.
+    eapply Inv_mono; [| |eapply (Inv_shift R (Star R) true c c0 pre); eauto]; [|auto].
+    intros s Hs. apply cat_inv in Hs. destruct Hs as [s1 [s2 [-> [A B]]]]. apply MStarS; assumption.
+  - subst c0. exists []. split; [reflexivity | constructor].
+Qed.
+
+Lemma h_plus_inv n d r R nf c : sub r = Some (R, nf) -> bytes_ok (rest c) ->
+  Inv (Cat R (Star R)) nf c (h_plus ev n d r c).
+Proof.
+  intros Er Hb. unfold h_plus.
+  eapply Inv_mono; [| |apply (Inv_bind R nf (Star R) true)].
+  - intros s Hs. exact Hs.
+  - intros Hn. rewrite Hn. reflexivity.
+  - apply Hev; assumption.
+  - intros c1 evs E. apply (star_loop_inv d r R nf Er). eapply ev_ok_bytes; eauto.
+Qed.
+
+Lemma h_partial_inv d r R nf c : sub r = Some (R, nf) -> bytes_ok (rest c) ->
+  Inv (Alt R Eps) true c (h_partial ev d [r] c).
+Proof.
+  intros Er Hb. unfold h_partial. pose proof (single_step d r R nf c Er Hb) as S.
+  destruct (seq_all ev (req d) [r] c) as [[| |e] c0 evs| |]; simpl; auto.
+  - destruct S as [[pre [E M]] _]. exists pre. split; [exact E | apply MAltL; exact M].
+  - subst c0. exists []. split; [reflexivity | apply MAltR; constructor].
+Qed.
+
+Lemma rep_loop_inv d r R nf : sub r = Some (R, nf) ->
+  forall k c, bytes_ok (rest c) -> Inv (pow k R) false c (rep_loop ev k d r c).
+Proof.
+  intros Er. induction k as [|k IH]; intros c Hb; cbn [rep_loop pow].
+  - exists []. split; [reflexivity | constructor].
+  - eapply Inv_mono; [| |apply (Inv_bind R nf (pow k R) false)].
+    + intros s Hs. exact Hs.
+    + discriminate.
+    + apply Hev; assumption.
+    + intros c1 evs E. apply IH. eapply ev_ok_bytes; eauto.
+Qed.
+
+Lemma repopt_loop_inv d r R nf : sub r = Some (R, nf) ->
+  forall k c, bytes_ok (rest c) -> Inv (pow k (Alt R Eps)) true c (fst (repopt_loop ev k d r c)).
+Proof.
+  intros Er. induction k as [|k IH]; intros c Hb; cbn [repopt_loop pow].
+  - simpl. exists []. split; [reflexivity | constructor].
+  - pose proof (Hev (req d) r c R nf Er Hb) as H1.
+    destruct (ev (req d) r c) as [[| |e] c0 evs| |] eqn:E; simpl in H1; simpl; auto.
+    + assert (Hb0 : bytes_ok (rest c0)) by (eapply ev_ok_bytes; eauto).
+      specialize (IH c0 Hb0). destruct (repopt_loop ev k d r c0) as [x b]. simpl in IH |- *.
+      apply Inv_prepend. destruct H1 as [pre [E1 M1]].
+      eapply (Inv_shift (Alt R Eps)); [exact E1 | apply MAltL; exact M1 | exact IH].
+    + assert (c0 = c) by (eapply (ev_fail_req (req d)); [reflexivity | exact E]). subst c0.
+      exists []. split; [reflexivity|]. apply (pow_opt_nil (S k)).
+Qed.
+
+Lemma h_rep_min_max_inv mn mx d r R nf c : sub r = Some (R, nf) -> bytes_ok (rest c) ->
+  Inv (Cat (pow mn R) (pow (mx - mn) (Alt R Eps))) false c (h_rep_min_max ev mn mx d r c).
+Proof.
+  intros Er Hb. unfold h_rep_min_max. apply Inv_guard.
+  eapply Inv_mono; [| |apply (Inv_bind (pow mn R) false (pow (mx - mn) (Alt R Eps)) false)].
+  - intros s Hs. exact Hs.
+  - discriminate.
+  - apply (rep_loop_inv (opt_ d) r R nf Er). exact Hb.
+  - intros c1 evs E.
+    assert (Hb1 : bytes_ok (rest c1)).
+    { pose proof (rep_loop_good PT PT_refl PT_trans ev Hgood mn (opt_ d) r eq_refl c) as G.
+      rewrite E in G. simpl in G. eapply bytes_ok_adv; eauto. }
+    pose proof (repopt_loop_inv d r R nf Er (mx - mn) c1 Hb1) as K.
+    destruct (repopt_loop ev (mx - mn) d r c1) as [x b]. simpl in K.
+    assert (Kw : Inv (pow (mx - mn) (Alt R Eps)) false c1 x).
+    { eapply Inv_mono; [| |exact K]; [intros s Hs; exact Hs | discriminate]. }
+    destruct x as [[| |e] c2 evs2| |]; try exact Kw.
+    destruct b; [|exact Kw].
+    apply Inv_prepend. unfold h_at, look. simpl in K. destruct K as [pre [E2 M2]].
+    assert (Hb2 : bytes_ok (rest c2)) by (rewrite E2 in Hb1; eapply bytes_ok_app_r; eauto).
+    pose proof (Hev (set_A (opt_ (opt_ d)) false) r c2 R nf Er Hb2) as H3.
+    destruct (ev (set_A (opt_ (opt_ d)) false) r c2) as [[| |e] c3 evs3| |]; simpl in H3; simpl; auto; try (exists pre; auto).
+Qed.
+
+Lemma h_if_must_inv (dflt : bool) d cnd m Rc nfc Rm c : sub cnd = Some (Rc, nfc) -> sub m = Some (Rm, true) -> bytes_ok (rest c) ->
+  Inv (if dflt then Alt (Cat Rc Rm) Eps else Cat Rc Rm) dflt c (h_if_must ev dflt d cnd [m] c).
+Proof.
+  intros Ec Em Hb. unfold h_if_must.
+  pose proof (Hev (if dflt then req d else d) cnd c Rc nfc Ec Hb) as H1.
+  destruct (ev (if dflt then req d else d) cnd c) as [[| |e] c1 evs| |] eqn:E; simpl in H1; auto.
+  - assert (Hb1 : bytes_ok (rest c1)) by (eapply ev_ok_bytes; eauto).
+    pose proof (Hev d m c1 Rm true Em Hb1) as H2. destruct H1 as [pre [E1 M1]].
+    assert (K : forall y, Inv Rm true c1 y -> Inv (if dflt then Alt (Cat Rc Rm) Eps else Cat Rc Rm) dflt c y).
+    { intros y Hy. eapply Inv_mono; [| |eapply (Inv_shift Rc Rm true c c1 pre); eauto]; [|auto].
+      intros s Hs. destruct dflt; [apply MAltL; exact Hs | exact Hs]. }
+    destruct (ev d m c1) as [[| |e] c2 evs2| |]; simpl in H2; try discriminate.
+    + apply (K (Res Ok c2 (evs ++ evs2))). exact H2.
+    + apply (K (Res (Exc e) c2 (evs ++ evs2))). exact H2.
+    + exact I.
+    + exact I.
+  - destruct dflt; simpl; [|reflexivity].
+    assert (c1 = c) by (eapply (ev_fail_req (req d)); [reflexivity | exact E]). subst c1.
+    exists []. split; [reflexivity | apply MAltR; constructor].
+Qed.
+
+Lemma h_must_inv d r R nf c : sub r = Some (R, nf) -> bytes_ok (rest c) -> Inv R true c (h_must ev d r c).
+Proof.
+  intros Er Hb. unfold h_must, raise_at.
+  pose proof (Hev (opt_ d) r c R nf Er Hb) as H1.
+  destruct (ev (opt_ d) r c) as [[| |e] c1 evs| |]; simpl in H1; simpl; auto.
+  eexists; eexists; reflexivity.
+Qed.
+
+(* ---------- atoms ---------- *)
+Lemma class_checked_spec cs t : class_checked cs t = true -> forall b, b < 256 -> t (schar b) = cs_mem b cs.
+Proof.
+  unfold class_checked. rewrite forallb_forall. intros H b Hb.
+  specialize (H b (all_bytes_in b Hb)). apply eqb_prop in H. symmetry. exact H.
+Qed.
+Lemma class_atom ch cs t c : class_checked cs t = true -> bytes_ok (rest c) ->
+  Inv (Chr cs) false c (peek_test_bump ch PkChar t c).
+Proof.
+  intros Hc Hb. pose proof (ptb_char ch t (fun b => cs_mem b cs) c Hb (class_checked_spec cs t Hc)) as V.
+  destruct (peek_test_bump ch PkChar t c) as [[| |e] c1 evs| |]; simpl in V; simpl; try discriminate; auto.
+  injection V as V. unfold atom1 in V. destruct (rest c) as [|b tl]; [discriminate|].
+  destruct (cs_mem b cs) eqn:Em; [|discriminate]. injection V as V. subst tl.
+  exists [b]. split; [reflexivity | constructor; exact Em].
+Qed.
+
+Lemma atom_inv h c x R nf : atom_re h = Some (Some (R, nf)) -> eval_atom (ceol C) h c = Some x ->
+  bytes_ok (rest c) -> Inv R nf c x.
+Proof.
+  intros Ha He Hb. destruct h; cbn [atom_re] in Ha; try discriminate.
+  - (* success *) inversion Ha; subst. simpl in He. inversion He; subst. exists []. split; [reflexivity | constructor].
+  - (* failure *) inversion Ha; subst. simpl in He. inversion He; subst. reflexivity.
+  - (* eof *) inversion Ha; subst. simpl in He. inversion He; subst. destruct (in_empty c); simpl; [|reflexivity].
+    exists []. split; [reflexivity | constructor].
+  - (* one *) destruct found; try discriminate. destruct pk; try discriminate.
+    unfold class_re in Ha. destruct (class_checked (cs_of_one cs) (test_one_set true cs)) eqn:Ec; [|discriminate].
+    inversion Ha; subst. cbn [eval_atom] in He. inversion He; subst. apply class_atom; assumption.
+  - (* range *) destruct found; try discriminate. destruct pk; try discriminate.
+    unfold class_re in Ha. destruct (class_checked [(z2n lo, z2n hi)] (test_one_range true lo hi)) eqn:Ec; [|discriminate].
+    inversion Ha; subst. cbn [eval_atom] in He. inversion He; subst. apply class_atom; assumption.
+  - (* ranges *) destruct pk; try discriminate.
+    unfold class_re in Ha. destruct (class_checked (cs_of_ranges cs) (test_ranges cs)) eqn:Ec; [|discriminate].
+    inversion Ha; subst. cbn [eval_atom] in He. inversion He; subst. apply class_atom; assumption.
+  - (* string *) inversion Ha; subst. pose proof (string_verdict (ceol C) cs c x He) as V.
+    destruct x as [[| |e] c1 evs| |]; simpl in V; simpl; try discriminate; auto.
+    injection V as V. symmetry in V. apply strip_app in V.
+    exists cs. split; [exact V | apply cat_list_iff; apply lits_match].
+  - (* opaque *) inversion Ha; subst. simpl in He. inversion He; subst. reflexivity.
+Qed.
+
+Lemma atom_is_atom h eol c y : atom_re h = Some (Some y) -> exists x, eval_atom eol h c = Some x.
+Proof.
+  intros Ha. destruct h; cbn [atom_re] in Ha; try discriminate; try (eexists; reflexivity).
+  - destruct found; try discriminate. destruct pk; try discriminate. eexists; reflexivity.
+  - destruct found; try discriminate. destruct pk; try discriminate. eexists; reflexivity.
+  - destruct pk; try discriminate. eexists; reflexivity.
+Qed.
+
+Lemma eval_head_inv n self nd d c R nf :
+  re_step (fun _ => None) sub self nd = Some (R, nf) -> bytes_ok (rest c) ->
+  Inv R nf c (eval_head C ev n self (nhead nd) (nsubs nd) d c).
+Proof.
+  unfold re_step. intros Hs Hb.
+  destruct (atom_re (nhead nd)) as [[y|]|] eqn:Ea.
+  - inversion Hs; subst y. destruct (atom_is_atom (nhead nd) (ceol C) c (R, nf) Ea) as [x Hx].
+    unfold eval_head. rewrite Hx. eapply atom_inv; eauto.
+  - discriminate.
+  - unfold eval_head.
+    destruct (nhead nd) eqn:Eh; cbn [atom_re] in Ea; try discriminate;
+      try (destruct found; discriminate); cbn [eval_atom].
+    + (* seq *) destruct (subs_re sub (nsubs nd)) as [l|] eqn:El; [|discriminate]. simpl in Hs. inversion Hs; subst.
+      unfold h_seq.
+      assert (K : forall m0, Inv (cat_list (map fst l)) (forallb snd l) c (guard m0 c (seq_all ev (opt_ d) (nsubs nd) c))).
+      { intros m0. apply Inv_guard. eapply Inv_mono; [| |apply (seq_all_inv (opt_ d) (nsubs nd) l El c Hb)]; [|auto].
+        intros s Hm. apply cat_list_iff. exact Hm. }
+      destruct (nsubs nd) as [|r1 [|r2 rs]]; try apply K.
+      simpl in El. destruct (sub r1) as [[R1 nf1]|] eqn:E1; [|discriminate]. inversion El; subst. simpl.
+      rewrite andb_true_r. apply Hev; assumption.
+    + (* sor *) destruct (subs_re sub (nsubs nd)) as [l|] eqn:El; [|discriminate]. simpl in Hs. inversion Hs; subst.
+      eapply Inv_mono; [| |apply (sor_any_inv d (nsubs nd) l El c Hb)]; [|auto].
+      intros s Hm. apply alt_list_iff. exact Hm.
+    + (* star *) destruct (nsubs nd) as [|r1 [|? ?]]; try discriminate.
+      destruct (sub r1) as [[R1 nf1]|] eqn:E1; [|discriminate]. simpl in Hs. inversion Hs; subst.
+      eapply star_loop_inv; eauto.
+    + (* plus *) destruct (nsubs nd) as [|r1 [|? ?]]; try discriminate.
+      destruct (sub r1) as [[R1 nf1]|] eqn:E1; [|discriminate]. simpl in Hs. inversion Hs; subst.
+      eapply h_plus_inv; eauto.
+    + (* partial *) destruct (nsubs nd) as [|r1 [|? ?]]; try discriminate.
+      destruct (sub r1) as [[R1 nf1]|] eqn:E1; [|discriminate]. simpl in Hs. inversion Hs; subst.
+      eapply h_partial_inv; eauto.
+    + (* rep *) destruct (nsubs nd) as [|r1 [|? ?]]; try discriminate.
+      destruct (sub r1) as [[R1 nf1]|] eqn:E1; [|discriminate]. simpl in Hs. inversion Hs; subst.
+      unfold h_rep. apply Inv_guard. eapply rep_loop_inv; eauto.
+    + (* rep_min_max *) destruct (nsubs nd) as [|r1 [|? ?]]; try discriminate.
+      destruct (sub r1) as [[R1 nf1]|] eqn:E1; [|discriminate]. simpl in Hs. inversion Hs; subst.
+      eapply h_rep_min_max_inv; eauto.
+    + (* rep_opt *) destruct (nsubs nd) as [|r1 [|? ?]]; try discriminate.
+      destruct (sub r1) as [[R1 nf1]|] eqn:E1; [|discriminate]. simpl in Hs. inversion Hs; subst.
+      unfold h_rep_opt. eapply repopt_loop_inv; eauto.
+    + (* if_must *) destruct (nsubs nd) as [|cnd [|m [|? ?]]]; try discriminate.
+      destruct (sub cnd) as [[Rc nfc]|] eqn:Ec; [|discriminate].
+      destruct (sub m) as [[Rm [|]]|] eqn:Em; try discriminate. inversion Hs; subst.
+      eapply h_if_must_inv; eauto.
+    + (* must *) destruct (nsubs nd) as [|r1 [|? ?]]; try discriminate.
+      destruct (sub r1) as [[R1 nf1]|] eqn:E1; [|discriminate]. simpl in Hs. inversion Hs; subst.
+      eapply h_must_inv; eauto.
+Qed.
+End InvHelpers.
